@@ -42,6 +42,62 @@ fn wait(result: CommandSendResult, deadline: Instant) -> i64 {
 
 pub struct HistOutcome { pub rounds: usize, pub calls: usize, pub stall: Option<String> }
 
+/// Free-running "hot key" rounds: one key fills the cache and is read without pause by several threads (so its estimate is
+/// high in every ageing window), while one thread puts keys that were never read and that only fit by evicting it. Every
+/// such put must be refused and the hot key must stay (TinyLFU admission with true estimates: C06, C14), whatever the
+/// consumer of the access buffers is doing at that moment.
+pub fn run_hot(seed: u64, rounds: usize, readers: usize, puts: usize, timeout: Duration, out: &mut dyn Write) -> HistOutcome {
+    let mut calls = 0usize;
+    const HOT: u64 = 1;
+    for round in 0..rounds {
+        let mut rng = StdRng::seed_from_u64(seed.wrapping_add(round as u64));
+        let cache = Arc::new(CacheD::<u64, u64>::new(
+            ConfigBuilder::new(1024, 64, 10)
+                .shards(2).command_buffer_size(4)
+                .access_pool_size(*[1usize, 2, 4].get(rng.gen_range(0..3)).unwrap()).access_buffer_size(*[4usize, 16, 64].get(round % 3).unwrap())
+                .build()));
+        let deadline = Instant::now() + timeout;
+        let stop = Arc::new(AtomicBool::new(false));
+        if wait(cache.put_with_weight(HOT, 7, 10), deadline) != 1 { continue; }
+        for _ in 0..64 { let _ = cache.get(&HOT); }
+        std::thread::sleep(Duration::from_millis(40));
+        let mut joins = Vec::new();
+        for _ in 0..readers {
+            let (cache, stop) = (cache.clone(), stop.clone());
+            joins.push(std::thread::spawn(move || { let mut sink = 0u64; while !stop.load(Ordering::Relaxed) { sink = sink.wrapping_add(cache.get(&HOT).unwrap_or(0)); } sink }));
+        }
+        std::thread::sleep(Duration::from_millis(10));
+        serde_json::to_writer(&mut *out, &serde_json::json!({"t": "reset", "run": round + 1, "w": -1, "n": 0, "k": 0, "op": "", "v": -1, "st": -1, "got": -1})).unwrap();
+        out.write_all(b"\n").unwrap();
+        let mut lost = false;
+        for index in 0..puts {
+            let key = 1000 + (round * puts + index) as u64;
+            let hash_of = |key: u64| { use std::hash::{Hash, Hasher}; let mut hasher = std::collections::hash_map::DefaultHasher::new(); key.hash(&mut hasher); hasher.finish() };
+            let (hot_before, cold_before) = (cache.verif_estimate(hash_of(HOT)), cache.verif_estimate(hash_of(key)));
+            let status = wait(cache.put_with_weight(key, key, 10), deadline);
+            if status == -3 { lost = true; break; }
+            let cold_after = cache.verif_estimate(hash_of(key));
+            let hot_present = cache.get(&HOT).is_some();
+            calls += 1;
+            serde_json::to_writer(&mut *out, &serde_json::json!({"t": "h", "run": round + 1, "w": 0, "n": index + 1, "k": key, "op": "cold_put", "v": key, "st": status,
+                                                                 "got": if hot_present { 1 } else { -1 },
+                                                                 // estimates read through the cache's own estimate function: of the resident before
+                                                                 // the put, of the newcomer before and after it (a newcomer whose sketch positions
+                                                                 // all coincide with the resident's shares its estimate: that is over-counting, allowed)
+                                                                 "e_hot": hot_before as i64, "e_cold": cold_before as i64, "e_cold2": cold_after as i64})).unwrap();
+            out.write_all(b"\n").unwrap();
+            if !hot_present { break; }   // (from here on the resident is a cold key: nothing more to learn in this round)
+        }
+        stop.store(true, Ordering::SeqCst);
+        for join in joins { let _ = join.join(); }
+        if lost {
+            return HistOutcome { rounds: round + 1, calls, stall: Some(format!("round {} (seed {}): an acknowledgement never completed", round, seed.wrapping_add(round as u64))) };
+        }
+        cache.shutdown();
+    }
+    HistOutcome { rounds, calls, stall: None }
+}
+
 pub fn run(seed: u64, rounds: usize, writers: usize, readers: usize, ops_per_thread: usize, timeout: Duration, out: &mut dyn Write) -> HistOutcome {
     let mut calls = 0usize;
     for round in 0..rounds {
